@@ -277,12 +277,19 @@ def run(prog: Program, ctx: Ctx, max_steps=200000, routine_info=None, sanitize=T
         return a
 
     def resolve_app(a):
-        apps = [ctx.app_id] + list(txn.get("Applications", []))
-        if a < len(apps) and prog.version >= 4:
-            if a == 0:
-                return ctx.app_id
-            return apps[a]
-        return a
+        # go-algorand appReference: 0 is always the current app; v4+ accepts ids first, then indices; older versions indices only
+        fa = list(txn.get("Applications", []))
+        if a == 0 or a == ctx.app_id:
+            return ctx.app_id
+        if prog.version >= 4:
+            if a in fa:
+                return a
+            if a <= len(fa):
+                return fa[a - 1]
+            raise Panic("unavailable App %d" % a)
+        if a <= len(fa):
+            return fa[a - 1]
+        raise Panic("invalid App reference %d" % a)
 
     def finish(status, ret=None, err=""):
         st = dict(ctx.app_global)
